@@ -30,7 +30,7 @@ pub fn run(tier: &str) -> i32 {
   }
   // submessage sequences through the secure-receiver state machine
   let seq_topics: Vec<&str> = if thorough { vec!["T_N_N", "T_S_N", "T_E_N", "T_SO_E", "T_EO_S"] } else { vec!["T_N_N", "T_S_N", "T_E_S"] };
-  let max_len = if thorough { 5 } else { 4 };
+  let max_len = if thorough { 7 } else { 4 };
   let parts = par_map(govs.len(), 16, |i| {
     let mut st = g::Stats::default();
     g::run_sequences(govs[i], &seq_topics, max_len, &mut st);
@@ -58,7 +58,7 @@ pub fn run(tier: &str) -> i32 {
   rep.set("distinct_nontrivial", json!(st.classes.len()));
   rep.set("outcome_classes", json!(st.classes));
   rep.set("exhaustive", json!(true));
-  rep.set("rule", json!("governance documents (RTPS protection kind NONE / SIGN / ENCRYPT / with origin authentication) x topics T_<metadata kind>_<data kind>, the exempt built-in topics DCPSParticipant, DCPSParticipantStatelessMessage, DCPSParticipantVolatileMessageSecure and the non-exempt DCPSPublication x submessage kinds {DATA, DATAFRAG, HEARTBEAT, GAP, ACKNACK, NACKFRAG} x receiver entity id {explicit, ENTITYID_UNKNOWN} x wrappers {plain, as required, each required level left out, submessage protection with another topic's keys, group without postfix / without prefix / with a spliced plain body / with two bodies / empty, plain submessage in front of SRTPS_PREFIX}; plus every sequence of at most 4 (thorough 5) pieces {SEC_PREFIX, protected body, SEC_POSTFIX, plain copy, INFO_TS, plain DATA of an unprotected topic} containing the plain copy, as one datagram and split in two at every point; plus a constellation in which a second remote participant uses the same writer EntityId for an open topic whose reader sorts first (plain submessages to ENTITYID_UNKNOWN must not reach the protected reader); each datagram is built with the sender's real plug-ins and injected into the peer's real MessageReceiver; oracle on reader state, TopicCache, the ACKNACK channel and reply datagrams"));
+  rep.set("rule", json!("governance documents (RTPS protection kind NONE / SIGN / ENCRYPT / with origin authentication) x topics T_<metadata kind>_<data kind>, the exempt built-in topics DCPSParticipant, DCPSParticipantStatelessMessage, DCPSParticipantVolatileMessageSecure and the non-exempt DCPSPublication x submessage kinds {DATA, DATAFRAG, HEARTBEAT, GAP, ACKNACK, NACKFRAG} x receiver entity id {explicit, ENTITYID_UNKNOWN} x wrappers {plain, as required, each required level left out, submessage protection with another topic's keys, group without postfix / without prefix / with a spliced plain body / with two bodies / empty, plain submessage in front of SRTPS_PREFIX}; plus every sequence of at most 4 (thorough 7) pieces {SEC_PREFIX, protected body, SEC_POSTFIX, plain copy, INFO_TS, plain DATA of an unprotected topic} containing the plain copy, as one datagram and split in two at every point; plus a constellation in which a second remote participant uses the same writer EntityId for an open topic whose reader sorts first (plain submessages to ENTITYID_UNKNOWN must not reach the protected reader); each datagram is built with the sender's real plug-ins and injected into the peer's real MessageReceiver; oracle on reader state, TopicCache, the ACKNACK channel and reply datagrams"));
   for s in &st.samples {
     rep.push_sample(json!(s));
   }
